@@ -46,17 +46,17 @@ func opEnumScan(r *hx.Run, s srcV) {
 		x := claircore.Medium
 		if err := x.Scan(s.v); err != nil {
 			if x != claircore.Medium {
-				r.Fail("", fmt.Sprintf("Severity.Scan(%T %s) failed and changed its receiver to %d", s.v, s.wire, uint64(x)))
+				failW(r, "", fmt.Sprintf("Severity.Scan(%T %s) failed and changed its receiver to %d", s.v, s.wire, uint64(x)))
 			}
 			return "err"
 		}
 		if uint64(x) > uint64(claircore.Critical) {
-			r.Fail("", fmt.Sprintf("Severity.Scan(%T %s) returned nil and the non-member %d", s.v, s.wire, uint64(x)))
+			failW(r, "", fmt.Sprintf("Severity.Scan(%T %s) returned nil and the non-member %d", s.v, s.wire, uint64(x)))
 		}
 		return fmt.Sprintf("ok %d", uint64(x))
 	})
 	if out == "panic" {
-		r.Fail("", fmt.Sprintf("Severity.Scan(%T) panics on %s", s.v, s.wire))
+		failW(r, "", fmt.Sprintf("Severity.Scan(%T) panics on %s", s.v, s.wire))
 	}
 	r.Op("sev-scan "+s.wire, out, true)
 	r.Count("sev-scan:" + s.wire[:1] + ":" + out[:2])
@@ -64,17 +64,17 @@ func opEnumScan(r *hx.Run, s srcV) {
 		x := claircore.OpNotEquals
 		if err := x.Scan(s.v); err != nil {
 			if x != claircore.OpNotEquals {
-				r.Fail("", fmt.Sprintf("ArchOp.Scan(%T %s) failed and changed its receiver to %d", s.v, s.wire, uint64(x)))
+				failW(r, "", fmt.Sprintf("ArchOp.Scan(%T %s) failed and changed its receiver to %d", s.v, s.wire, uint64(x)))
 			}
 			return "err"
 		}
 		if uint64(x) > uint64(claircore.OpPatternMatch) {
-			r.Fail("", fmt.Sprintf("ArchOp.Scan(%T %s) returned nil and the non-member %d", s.v, s.wire, uint64(x)))
+			failW(r, "", fmt.Sprintf("ArchOp.Scan(%T %s) returned nil and the non-member %d", s.v, s.wire, uint64(x)))
 		}
 		return fmt.Sprintf("ok %d", uint64(x))
 	})
 	if out == "panic" {
-		r.Fail("", fmt.Sprintf("ArchOp.Scan(%T) panics on %s", s.v, s.wire))
+		failW(r, "", fmt.Sprintf("ArchOp.Scan(%T) panics on %s", s.v, s.wire))
 	}
 	r.Op("arch-scan "+s.wire, out, true)
 	r.Count("arch-scan:" + s.wire[:1] + ":" + out[:2])
@@ -91,7 +91,7 @@ func opToolkitEnums(r *hx.Run, b []byte) {
 		return fmt.Sprintf("ok %d", uint(s))
 	})
 	if out == "panic" {
-		r.Fail("", "toolkit types.Severity.UnmarshalText panics on hex:"+hx.Hex(b))
+		failW(r, "", "toolkit types.Severity.UnmarshalText panics on hex:"+hx.Hex(b))
 	}
 	r.Op("sev-un "+hx.Hex(b), out, false)
 	out = hx.Guard(func() string {
@@ -102,7 +102,7 @@ func opToolkitEnums(r *hx.Run, b []byte) {
 		return fmt.Sprintf("ok %d", uint(s))
 	})
 	if out == "panic" {
-		r.Fail("", "toolkit types.ArchOp.UnmarshalText panics on hex:"+hx.Hex(b))
+		failW(r, "", "toolkit types.ArchOp.UnmarshalText panics on hex:"+hx.Hex(b))
 	}
 	r.Op("arch-un "+hx.Hex(b), out, false)
 	out = hx.Guard(func() string {
@@ -113,7 +113,7 @@ func opToolkitEnums(r *hx.Run, b []byte) {
 		return fmt.Sprintf("ok %d", uint(s))
 	})
 	if out == "panic" {
-		r.Fail("", "toolkit types.PackageKind.UnmarshalText panics on hex:"+hx.Hex(b))
+		failW(r, "", "toolkit types.PackageKind.UnmarshalText panics on hex:"+hx.Hex(b))
 	}
 	r.Op("pk-un "+hx.Hex(b), out, true)
 }
@@ -146,7 +146,7 @@ func opDigScan(r *hx.Run, old string, s srcV) {
 		d := recvDigest(old)
 		if err := d.Scan(s.v); err != nil {
 			if showDigest(d) != showDigest(recvDigest(old)) {
-				r.Fail("", fmt.Sprintf("Digest.Scan(%T %s) failed and changed its receiver to %s", s.v, s.wire, showDigest(d)))
+				failW(r, "", fmt.Sprintf("Digest.Scan(%T %s) failed and changed its receiver to %s", s.v, s.wire, showDigest(d)))
 			}
 			return "err " + showDigest(d)
 		}
@@ -154,13 +154,13 @@ func opDigScan(r *hx.Run, old string, s srcV) {
 			// a nil error means the text was a digest, and the receiver is that digest
 			want, perr := claircore.ParseDigest(str)
 			if perr != nil || showDigest(want) != showDigest(d) {
-				r.Fail("", fmt.Sprintf("Digest.Scan(%q) returned nil and left %s (ParseDigest: %v)", str, showDigest(d), perr))
+				failW(r, "", fmt.Sprintf("Digest.Scan(%q) returned nil and left %s (ParseDigest: %v)", str, showDigest(d), perr))
 			}
 		}
 		return "ok " + showDigest(d)
 	})
 	if out == "panic" {
-		r.Fail("", fmt.Sprintf("Digest.Scan(%T) panics on %s", s.v, s.wire))
+		failW(r, "", fmt.Sprintf("Digest.Scan(%T) panics on %s", s.v, s.wire))
 	}
 	r.Op("dig-scan "+recvWire(old)+" "+s.wire, out, true)
 	r.Count("dig-scan:" + s.wire[:1] + ":" + out[:2])
@@ -179,22 +179,22 @@ func opDigUnx(r *hx.Run, old string, t []byte) {
 			buf[i] ^= 0xff
 		}
 		if st2 := showDigest(d); st2 != st {
-			r.Fail("", "a decoded Digest changed when the input buffer was overwritten: text=hex:"+hx.Hex(t)+" before="+st+" after="+st2)
+			failW(r, "", "a decoded Digest changed when the input buffer was overwritten: text=hex:"+hx.Hex(t)+" before="+st+" after="+st2)
 		}
 		if old != "" && showDigest(keep) != showDigest(recvDigest(old)) {
-			r.Fail("", "a value copy of a Digest changed when the variable it was copied from decoded hex:"+hx.Hex(t))
+			failW(r, "", "a value copy of a Digest changed when the variable it was copied from decoded hex:"+hx.Hex(t))
 		}
 		if err != nil {
 			return "err " + st
 		}
 		// a decoded value must satisfy the type's invariant
 		if d.String() != d.Algorithm()+":"+fmt.Sprintf("%x", d.Checksum()) {
-			r.Fail("", "Digest decoded from hex:"+hx.Hex(t)+" is inconsistent: "+st)
+			failW(r, "", "Digest decoded from hex:"+hx.Hex(t)+" is inconsistent: "+st)
 		}
 		return "ok " + st
 	})
 	if out == "panic" {
-		r.Fail("", "Digest.UnmarshalText panics on hex:"+hx.Hex(t))
+		failW(r, "", "Digest.UnmarshalText panics on hex:"+hx.Hex(t))
 	}
 	r.Op("dig-unx "+recvWire(old)+" "+hx.Hex(t), out, true)
 	r.Count("dig-unx:" + out[:2])
@@ -217,7 +217,7 @@ func opVerUnx(r *hx.Run, a, b []byte) {
 			buf[i] ^= 0xff
 		}
 		if st2 := hx.Hex([]byte(v.Kind)) + " " + slots(v.V); st2 != st {
-			r.Fail("", "a decoded Version changed when the input buffer was overwritten: hex:"+hx.Hex(b))
+			failW(r, "", "a decoded Version changed when the input buffer was overwritten: hex:"+hx.Hex(b))
 		}
 		if err != nil {
 			return "err " + st
@@ -225,7 +225,7 @@ func opVerUnx(r *hx.Run, a, b []byte) {
 		return "ok " + st
 	})
 	if out == "panic" {
-		r.Fail("", "Version.UnmarshalText panics on hex:"+hx.Hex(b))
+		failW(r, "", "Version.UnmarshalText panics on hex:"+hx.Hex(b))
 	}
 	r.Op("ver-unx "+hx.Hex(a)+" "+hx.Hex(b), out, true)
 	r.Count("ver-unx:" + out[:2])
@@ -290,7 +290,7 @@ func runSQL(r *hx.Run, cfg hx.Config, rnd *hx.Rand) {
 			out = hx.Hex(b)
 			var back types.PackageKind
 			if err := back.UnmarshalText(b); err != nil || back != k {
-				r.Fail("", fmt.Sprintf("types.PackageKind %d does not round-trip through text", n))
+				failW(r, "", fmt.Sprintf("types.PackageKind %d does not round-trip through text", n))
 			}
 		}
 		r.Op(fmt.Sprintf("pk-m %d", n), out, true)
@@ -372,7 +372,7 @@ func runSQL(r *hx.Run, cfg hx.Config, rnd *hx.Rand) {
 		val, _ := d.Value()
 		back := recvDigest(old)
 		if err := back.Scan(val); err != nil || showDigest(back) != showDigest(d) {
-			r.Fail("", "Digest Value/Scan round trip into a used receiver: "+d.String())
+			failW(r, "", "Digest Value/Scan round trip into a used receiver: "+d.String())
 		}
 	}
 
@@ -413,7 +413,7 @@ func opWfnScan(r *hx.Run, old string, s srcV) {
 		if err := w.Scan(s.v); err != nil {
 			if w != before {
 				// no partial mutation (repaired defect): a rejected source leaves the receiver alone
-				r.Fail("", fmt.Sprintf("cpe.WFN.Scan(%T %s) failed and changed its receiver from %q to %q", s.v, s.wire, before.String(), w.BindFS()))
+				failW(r, "", fmt.Sprintf("cpe.WFN.Scan(%T %s) failed and changed its receiver from %q to %q", s.v, s.wire, before.String(), w.BindFS()))
 			}
 			return "err"
 		}
@@ -427,19 +427,19 @@ func opWfnScan(r *hx.Run, old string, s srcV) {
 				bs[i] ^= 0x55
 			}
 			if b2, _ := w.MarshalText(); string(b2) != string(b) {
-				r.Fail("", "a scanned cpe.WFN changed when the []byte it was scanned from was overwritten: "+string(b)+" -> "+string(b2))
+				failW(r, "", "a scanned cpe.WFN changed when the []byte it was scanned from was overwritten: "+string(b)+" -> "+string(b2))
 			}
 		}
 		// Value -> Scan gives the same name back
 		val, err := w.Value()
 		var back cpe.WFN
 		if err != nil || back.Scan(val) != nil || back.String() != w.String() {
-			r.Fail("", "cpe.WFN Value/Scan round trip of "+string(b))
+			failW(r, "", "cpe.WFN Value/Scan round trip of "+string(b))
 		}
 		return "ok " + hx.Hex(b)
 	})
 	if out == "panic" {
-		r.Fail("", fmt.Sprintf("cpe.WFN.Scan(%T) panics on %s", s.v, s.wire))
+		failW(r, "", fmt.Sprintf("cpe.WFN.Scan(%T) panics on %s", s.v, s.wire))
 	}
 	if str, ok := s.v.(string); ok {
 		// UnmarshalText is the same decoder as Scan(string), with the same care for its receiver
@@ -447,7 +447,7 @@ func opWfnScan(r *hx.Run, old string, s srcV) {
 		o2 := hx.Guard(func() string {
 			if err := u.UnmarshalText([]byte(str)); err != nil {
 				if u != before {
-					r.Fail("", fmt.Sprintf("cpe.WFN.UnmarshalText(%q) failed and changed its receiver from %q to %q", str, before.String(), u.BindFS()))
+					failW(r, "", fmt.Sprintf("cpe.WFN.UnmarshalText(%q) failed and changed its receiver from %q to %q", str, before.String(), u.BindFS()))
 				}
 				return "err"
 			}
@@ -458,7 +458,7 @@ func opWfnScan(r *hx.Run, old string, s srcV) {
 			return "ok " + hx.Hex(b)
 		})
 		if o2 != out {
-			r.Fail("", fmt.Sprintf("cpe.WFN.UnmarshalText(%q) = %s but Scan of the same string = %s", str, o2, out))
+			failW(r, "", fmt.Sprintf("cpe.WFN.UnmarshalText(%q) = %s but Scan of the same string = %s", str, o2, out))
 		}
 	}
 	r.Op("wfn-scan "+hx.Hex([]byte(old))+" "+s.wire, out, true)
@@ -476,14 +476,14 @@ func opWfnScan(r *hx.Run, old string, s srcV) {
 			return "ok " + hx.Hex(b)
 		})
 		if o3 != out {
-			r.Fail("", fmt.Sprintf("pkg/cpe.Unbind(%q) = %s but toolkit cpe (Scan) = %s", str, o3, out))
+			failW(r, "", fmt.Sprintf("pkg/cpe.Unbind(%q) = %s but toolkit cpe (Scan) = %s", str, o3, out))
 		}
 		r.Op("wfn-scan - "+s.wire, o3, false)
 		for name, f := range map[string][2]func(string) (cpe.WFN, error){"UnbindFS": {pkgcpe.UnbindFS, cpe.UnbindFS}, "UnbindURI": {pkgcpe.UnbindURI, cpe.UnbindURI}} {
 			a, ea := f[0](str)
 			b, eb := f[1](str)
 			if a != b || (ea == nil) != (eb == nil) {
-				r.Fail("", fmt.Sprintf("pkg/cpe.%s(%q) differs from the toolkit function it re-exports", name, str))
+				failW(r, "", fmt.Sprintf("pkg/cpe.%s(%q) differs from the toolkit function it re-exports", name, str))
 			}
 		}
 	}
